@@ -66,7 +66,7 @@ PROFILES = {
     "C08": _merge(BASE, {"mut": {"ADD_OP": 48, "ADD_SUB": 14, "APPLY": 8, "FLATTEN": 3, "COPY": 3, "NEW_LIB": 2},
                          "obs": {"STIM": 20, "LIST": 4, "FULL": 4, "PLOT": 0, "OPENQL": 0},
                          "all_kinds": True, "p_reps": 0.5, "flt": {"SINK_FAIL": 2}, "class": {"mut": 60, "obs": 33, "flt": 7}}),
-    "C11": _merge(BASE, {"p_flatten_fail": 0.2, "mut": {"ADD_OP": 44, "ADD_SUB": 16, "APPLY": 6, "FLATTEN": 12, "COPY": 1, "NEW_LIB": 3},
+    "C11": _merge(BASE, {"p_via_structure": 0.3, "p_flatten_fail": 0.2, "mut": {"ADD_OP": 44, "ADD_SUB": 16, "APPLY": 6, "FLATTEN": 12, "COPY": 1, "NEW_LIB": 3},
                          "obs": {"FULL": 8, "LIST": 6, "TIMES": 6, "ACQ": 3, "STIM": 4, "PLOT": 0, "OPENQL": 0},
                          "p_rel": 0.0, "flt": {"SINK_FAIL": 0}, "class": {"mut": 62, "obs": 32, "flt": 6}}),
     "C15": _merge(BASE, {"mut": {"ADD_OP": 48, "ADD_SUB": 12, "APPLY": 5, "FLATTEN": 2, "COPY": 1, "NEW_LIB": 1},
@@ -394,8 +394,11 @@ class Gen:
                 return False
         if self.unrolled(parent) + self.unrolled(child) > 70 or m.leaf_count(parent) + m.leaf_count(child) > 40:
             return False
-        self.emit({"s": s, "op": "ADD_SUB", "c": parent, "child": child})
-        c, v = m.add_sub(parent, child)
+        st = {"s": s, "op": "ADD_SUB", "c": parent, "child": child}
+        if child not in m.bound and rng.random() < self.P.get("p_via_structure", 0.12):
+            st["via"] = "structure"
+        self.emit(st)
+        c, v = m.add_sub(parent, child, via_structure=st.get("via") == "structure")
         if m.roots[parent].rel_known and v.get("adm"):
             c.rel = ("FOLLOWED_BY", v["adm"][-1])
         if child in self.lib_handles:
